@@ -24,6 +24,42 @@ fn cps_text(v: &Value) -> String {
 }
 
 pub fn build_doc(p: &Value) -> Result<Document, String> {
+    build_doc_ex(p).map(|(d, _)| d)
+}
+
+/// Register the resources a page program names; returns per resource whether the API accepted the name.
+fn add_resources(page: &mut Page, pg: &Value) -> Vec<bool> {
+    use oxidize_pdf::graphics::{AxialShading, Color, FormXObject, Image, Point, ShadingDefinition};
+    let mut acc = Vec::new();
+    for r in pg["resources"].as_array().map(|a| a.as_slice()).unwrap_or(&[]) {
+        let name = crate::c21::name(r);
+        let ok = match r["kind"].as_str().unwrap() {
+            "image" => {
+                page.add_image(name.clone(), Image::from_gray_data(vec![128u8], 1, 1).unwrap());
+                true
+            }
+            "shading" => page
+                .add_shading(name.clone(), ShadingDefinition::Axial(AxialShading::linear_gradient(name.clone(), Point::new(0.0, 0.0), Point::new(10.0, 0.0), Color::Gray(0.0), Color::Gray(1.0))))
+                .is_ok(),
+            "form" => page.add_form_xobject(name.clone(), FormXObject::new(oxidize_pdf::geometry::Rectangle::from_position_and_size(0.0, 0.0, 10.0, 10.0))).is_ok(),
+            other => tool_error(&format!("resource kind {other}")),
+        };
+        acc.push(ok);
+    }
+    acc
+}
+
+/// Is the call one that uses a resource the API refused?  (Then the program could not have made it.)
+fn uses_rejected(c: &Value, pg: &Value, acc: &[bool]) -> bool {
+    if !matches!(c["c"].as_str().unwrap(), "draw_image" | "paint_shading") {
+        return false;
+    }
+    let nm = &c["name"];
+    pg["resources"].as_array().map(|a| a.iter().zip(acc.iter()).any(|(r, ok)| &r["name"] == nm && !ok)).unwrap_or(false)
+}
+
+pub fn build_doc_ex(p: &Value) -> Result<(Document, Vec<Vec<bool>>), String> {
+    let mut accepted: Vec<Vec<bool>> = Vec::new();
     let mut doc = Document::new();
     let info = &p["info"];
     if !info["title"].is_null() { doc.set_title(cps_text(&info["title"])); }
@@ -42,7 +78,11 @@ pub fn build_doc(p: &Value) -> Result<Document, String> {
         if rot != 0 {
             page.set_rotation(rot as i32);
         }
+        let acc = add_resources(&mut page, pg);
         for c in pg["prog"].as_array().unwrap() {
+            if uses_rejected(c, pg, &acc) {
+                continue;
+            }
             match pg["kind"].as_str().unwrap() {
                 "g" => crate::c21::g_call(page.graphics(), c)?,
                 _ => match c["c"].as_str().unwrap() {
@@ -53,9 +93,10 @@ pub fn build_doc(p: &Value) -> Result<Document, String> {
                 },
             }
         }
+        accepted.push(acc);
         doc.add_page(page);
     }
-    Ok(doc)
+    Ok((doc, accepted))
 }
 
 fn chrono_fixed() -> chrono::DateTime<chrono::Utc> {
@@ -207,7 +248,8 @@ fn run(a: &Args) {
             let b3 = write_doc(&mut d3, &p2["cfg"])?;
             Ok(vec![b1, b2, b3])
         });
-        let mut ev = json!({"ev": "file", "case": ci, "prog": p});
+        let accepted = build_doc_ex(p).map(|(_, a)| a).unwrap_or_default();
+        let mut ev = json!({"ev": "file", "case": ci, "prog": p, "accepted": accepted});
         match built {
             Ok(Ok(bs)) => {
                 let bytes = &bs[0];
@@ -232,6 +274,7 @@ fn run(a: &Args) {
         out.line(&json!({"ev": "chk_file"}));
         out.line(&json!({"ev": "chk_lib"}));
         out.line(&json!({"ev": "chk_pages"}));
+        out.line(&json!({"ev": "chk_resources"}));
     }
     out.flush();
 }
